@@ -728,3 +728,105 @@ Proof.
     as (sb'' & sl'' & n'' & E2 & _ & _ & H).
   now exists sb'', sl'', n''.
 Qed.
+
+(* ---------------------------------------------------------------- the callers report a failed copy *)
+(* for ANY two filesystems: the error of copyToLayer / copyFileToLayer is what the caller returns *)
+Section Callers.
+Context {B L : Type} (bstep : B -> op -> B * res) (lstep : L -> op -> L * res).
+
+Lemma cow_openfile_reports sb sl tbl name flag perm sb1 sl1 sb2 sl2 ce :
+  is_base_file bstep lstep sb sl name = (sb1, sl1, true, None) ->
+  Z.land flag cow_mask <> 0 ->
+  copy_to_layer bstep lstep sb1 sl1 name = (sb2, sl2, Some ce) ->
+  cow_step bstep lstep (sb, sl, tbl) (OpenFile name flag perm) = ((sb2, sl2, tbl), RErr ce).
+Proof.
+  intros H1 H2 H3. cbn [cow_step]. unfold cow_openfile. rewrite H1. apply Z.eqb_neq in H2. rewrite H2.
+  cbn [negb]. now rewrite H3.
+Qed.
+
+Lemma cow_openfile_copied sb sl tbl name flag perm sb1 sl1 sb2 sl2 :
+  is_base_file bstep lstep sb sl name = (sb1, sl1, true, None) ->
+  Z.land flag cow_mask <> 0 ->
+  copy_to_layer bstep lstep sb1 sl1 name = (sb2, sl2, None) ->
+  cow_step bstep lstep (sb, sl, tbl) (OpenFile name flag perm) = open_layer lstep sb2 sl2 tbl (OpenFile name flag perm).
+Proof.
+  intros H1 H2 H3. cbn [cow_step]. unfold cow_openfile. rewrite H1. apply Z.eqb_neq in H2. rewrite H2.
+  cbn [negb]. now rewrite H3.
+Qed.
+
+Definition meta_op (o : op) (name : str) : Prop :=
+  (exists m, o = Chmod name m) \/ (exists t, o = Chtimes name t) \/ (exists u g, o = Chown name u g).
+
+Lemma cow_meta_reports sb sl tbl name o sb1 sl1 sb2 sl2 ce :
+  meta_op o name ->
+  is_base_file bstep lstep sb sl name = (sb1, sl1, true, None) ->
+  copy_to_layer bstep lstep sb1 sl1 name = (sb2, sl2, Some ce) ->
+  cow_step bstep lstep (sb, sl, tbl) o = ((sb2, sl2, tbl), RErr ce).
+Proof.
+  intros [[m ->]|[[t ->]|[u [g ->]]]] H1 H3; cbn [cow_step]; unfold cow_meta; rewrite H1, H3; reflexivity.
+Qed.
+
+Lemma cache_open_miss_reports dur now sb sl tbl name sb1 sl1 fi sb2 bfi sb3 sl2 ce :
+  cache_status bstep lstep dur now sb sl name = (sb1, sl1, CMiss, fi, None) ->
+  bstep sb1 (Stat name) = (sb2, RInfo bfi) -> fi_dir bfi = false ->
+  copy_to_layer bstep lstep sb2 sl1 name = (sb3, sl2, Some ce) ->
+  cache_step bstep lstep dur now (sb, sl, tbl) (Open name) = ((sb3, sl2, tbl), RErr ce).
+Proof.
+  intros H1 H2 H3 H4. cbn [cache_step]. rewrite H1, H2, H3, H4. reflexivity.
+Qed.
+
+Lemma cache_open_stale_reports dur now sb sl tbl name sb1 sl1 f sb3 sl2 ce :
+  cache_status bstep lstep dur now sb sl name = (sb1, sl1, CStale, Some f, None) -> fi_dir f = false ->
+  copy_to_layer bstep lstep sb1 sl1 name = (sb3, sl2, Some ce) ->
+  cache_step bstep lstep dur now (sb, sl, tbl) (Open name) = ((sb3, sl2, tbl), RErr ce).
+Proof.
+  intros H1 H3 H4. cbn [cache_step]. rewrite H1, H3, H4. reflexivity.
+Qed.
+
+Lemma cache_openfile_reports dur now sb sl tbl name flag perm sb1 sl1 cs fi sb2 sl2 ce :
+  cache_status bstep lstep dur now sb sl name = (sb1, sl1, cs, fi, None) -> cs = CMiss \/ cs = CStale ->
+  copy_to_layer_with bstep lstep sb1 sl1 name (OpenFile name flag perm) = (sb2, sl2, Some ce) ->
+  cache_step bstep lstep dur now (sb, sl, tbl) (OpenFile name flag perm) = ((sb2, sl2, tbl), RErr ce).
+Proof.
+  intros H1 Hcs H4. cbn [cache_step]. rewrite H1. destruct Hcs as [->| ->]; rewrite H4; reflexivity.
+Qed.
+End Callers.
+
+(* a file that only the base holds, MemMapFs base, MemMapFs layer behind the injector *)
+Lemma is_base_file_base_only pl sb sl n name f nd :
+  lookup sl (normalize_path name) = None -> lookup sb (normalize_path name) = Some f -> get_node sb f = Some nd ->
+  exists slx, is_base_file m_step (faulty_step m_step pl) sb (sl, n) name = (bump sb, (slx, S n), true, None) /\
+              mdata slx = mdata sl /\ mheap slx = mheap sl.
+Proof.
+  intros Hl Hb Hg. unfold is_base_file.
+  destruct (faulty_plain m_step pl sl n (Stat name) eq_refl) as [H|(e & _ & H)]; rewrite H.
+  - rewrite (stat_missing sl name Hl), (stat_found sb name f nd Hb Hg). cbn [fst snd]. exists (bump sl). now repeat split.
+  - rewrite (stat_found sb name f nd Hb Hg). exists sl. now repeat split.
+Qed.
+
+Theorem cow_openfile_interrupted name pl sb sl tbl flag perm dat :
+  normalize_path name = name -> name_acyclic name -> at_most_one_fault pl ->
+  reg_file sb name dat -> layer_sane sl name -> lookup sl name = None -> Z.land flag cow_mask <> 0 ->
+  exists sb2 sl2 n2 rc,
+    three_way sl sl2 name dat rc /\ layer_sane sl2 name /\
+    match rc with
+    | Some ce => cow_step m_step (faulty_step m_step pl) (sb, (sl, 0%nat), tbl) (OpenFile name flag perm)
+                 = ((sb2, (sl2, n2), tbl), RErr ce)
+    | None => cow_step m_step (faulty_step m_step pl) (sb, (sl, 0%nat), tbl) (OpenFile name flag perm)
+              = open_layer (faulty_step m_step pl) sb2 (sl2, n2) tbl (OpenFile name flag perm)
+    end.
+Proof.
+  intros Hn Hac Hamo Hb Hs Hl Hfl. pose proof Hb as (f & nd & Lb & Gb & Ab & Db).
+  destruct (is_base_file_base_only pl sb sl 0 name f nd) as (slx & Eb & Dx & Mx); try (rewrite Hn; assumption); [exact Gb|].
+  assert (Cx : cosmetic sl slx) by (apply cosmetic_same; assumption).
+  destruct (copy_atomic_layer name pl (bump sb) slx dat (Open name) 1 Hn Hac (amo_from_all pl 1 Hamo))
+    as (sb2 & sl2 & n2 & rc & E & _ & S2 & _ & _ & T).
+  { apply (cosmetic_reg_file sb); [apply cosmetic_bump | exact Hb]. }
+  { now apply (cosmetic_layer_sane sl). }
+  { now left. }
+  exists sb2, sl2, n2, rc. split; [|split; [exact S2|]].
+  - unfold three_way in *. unfold fs_entry, lookup, get_node in *. rewrite Dx, Mx in T. exact T.
+  - destruct rc as [ce|].
+    + apply (cow_openfile_reports _ _ _ _ _ _ _ _ _ _ _ _ _ Eb Hfl E).
+    + apply (cow_openfile_copied _ _ _ _ _ _ _ _ _ _ _ _ Eb Hfl E).
+Qed.
